@@ -950,8 +950,15 @@ func (fc *funcContext) delegatedCall(expr *ast.CallExpr) (callable *expression, 
 	vars := make([]string, len(expr.Args))
 	callArgs := make([]ast.Expr, len(expr.Args))
 	ellipsis := expr.Ellipsis
+	if sig.Sig.Variadic() && !ellipsis.IsValid() && len(args) == sig.Sig.Params().Len() {
+		// translateArgs has already packed the variadic arguments into one slice:
+		// the proxy lambda receives that slice and passes it on with "...".
+		vars = make([]string, len(args))
+		callArgs = make([]ast.Expr, len(args))
+		ellipsis = expr.Rparen
+	}
 
-	for i := range expr.Args {
+	for i := range vars {
 		v := fc.newLocalVariable("_arg")
 		vars[i] = v
 		// Subtle: the proxy lambda argument needs to be assigned with the type
@@ -962,7 +969,7 @@ func (fc *funcContext) delegatedCall(expr *ast.CallExpr) (callable *expression, 
 	wrapper := &ast.CallExpr{
 		Fun:      expr.Fun,
 		Args:     callArgs,
-		Ellipsis: expr.Ellipsis,
+		Ellipsis: ellipsis,
 	}
 	callable = fc.formatExpr("function(%s) { %e; }", strings.Join(vars, ", "), wrapper)
 	arglist = fc.formatExpr("[%s]", strings.Join(args, ", "))
